@@ -217,6 +217,18 @@ def gen_daemon_cases(ctx):
                 c = base_case(fg=bool(m & 1) ^ (typ == "reg"), euid=e, umask=0o022)
                 c["key"] = {"type": typ, "uid": e if owner == "euid" else FOREIGN, "gid": 0, "mode": m}
                 add("key", c)
+    # files owned by root while the daemon runs as somebody else: "owned by root" is not "owned by euid"
+    for m in (0o600, 0o400, 0o640, 0o644, 0o604):
+        for fg in (True, False):
+            c = base_case(fg=fg, euid=EUID2)
+            c["key"] = {"type": "reg", "uid": 0, "gid": 0, "mode": m}
+            add("key", c)
+            c = base_case(fg=fg, euid=EUID2)
+            c["seed"] = {"type": "reg", "uid": 0, "gid": 0, "mode": m}
+            add("seed", c)
+        c = base_case(fg=False, euid=EUID2)
+        c["log"] = {"type": "reg", "uid": 0, "gid": 0, "mode": m}
+        add("log", c)
     for typ in ("fifo", "dir", "missing", "dangling"):
         for owner in (0, FOREIGN):
             for m in (0o600, 0o644):
